@@ -517,8 +517,9 @@ def run(ctx):
     for paths, ma, depth, dv, label in runs:
         spec, cfg = _model_mc(ctx, paths, ma, depth, dv)
         jobs.append(("states", lambda spec=spec, cfg=cfg, label=label: ctx.tlc_cases(spec, cfg, label=label, timeout=2400)[0]))
-    spec, cfg = _model_mc(ctx, "StdPaths" if not ctx.quick else SMALL_PATHS, 1, ctx.pick(4, 5), False, export=False)
-    jobs.append(("design", lambda spec=spec, cfg=cfg: ctx.tlc(spec, cfg, label="design only: 1 assignment/call, deeper nesting", timeout=2400)))
+    if not ctx.quick:      # design check only (no export), one level deeper than what is replayed
+        spec, cfg = _model_mc(ctx, "StdPaths", 1, 5, False, export=False)
+        jobs.append(("design", lambda spec=spec, cfg=cfg: ctx.tlc(spec, cfg, label="design only: 1 assignment/call, nesting 5", timeout=2400)))
     spec, cfg = ctx.model(ctx.spec("sched", "ConfigFnMC.tla"), {"Fam": "all", "Vals": TLA(ctx.pick("{1}", "{1, 2}"))}, invariants=FN_INVS)
     jobs.append(("fn", lambda spec=spec, cfg=cfg: ctx.tlc_cases(spec, cfg, label="design+cases: update/merge/env/roundtrip", timeout=2400)[0]))
     rejected = []
